@@ -148,6 +148,9 @@ pub fn graceful(kv: &BTreeMap<String, String>) -> Vec<String> {
     use std::time::Duration;
     use tokio::io::{AsyncReadExt, AsyncWriteExt};
     let stage = kv.get("stage").cloned().unwrap_or("idle".into());
+    if kv.get("late").map(|s| s == "midpoll").unwrap_or(false) {
+        return graceful_midpoll();
+    }
     let rt = tokio::runtime::Builder::new_current_thread().enable_all().build().unwrap();
     rt.block_on(async move {
         let (client, incoming) = hyperdriver::stream::duplex::pair();
@@ -250,6 +253,67 @@ pub fn graceful(kv: &BTreeMap<String, String>) -> Vec<String> {
             }
         }
         let done = tokio::time::timeout(Duration::from_millis(500), serving).await;
+        out.push(match done {
+            Ok(Ok(Ok(()))) => "server_done=ok".to_string(),
+            Ok(Ok(Err(e))) => format!("server_done=err:{e}"),
+            Ok(Err(_)) => "server_done=panicked".to_string(),
+            Err(_) => "server_done=pending".to_string(),
+        });
+        out.push("result=ok".into());
+        out
+    })
+}
+
+/// `late=midpoll`: two clients are queued at the listener before the server is polled for the first time;
+/// making the service for the FIRST connection resolves the shutdown signal (so it resolves while the
+/// server future is being polled).  The second, still queued, connection must not be accepted.
+fn graceful_midpoll() -> Vec<String> {
+    use hyperdriver::server::conn::Acceptor;
+    use std::sync::atomic::{AtomicUsize, Ordering};
+    use std::sync::{Arc, Mutex};
+    use std::time::Duration;
+    let rt = tokio::runtime::Builder::new_current_thread().enable_all().build().unwrap();
+    rt.block_on(async move {
+        let (client, incoming) = hyperdriver::stream::duplex::pair();
+        let acceptor = Acceptor::from(incoming);
+        let (sig_tx, sig_rx) = tokio::sync::oneshot::channel::<()>();
+        let sig_tx = Arc::new(Mutex::new(Some(sig_tx)));
+        let made = Arc::new(AtomicUsize::new(0));
+        let made2 = made.clone();
+        let svc = hyperdriver::service::make_service_fn(move |_| {
+            made2.fetch_add(1, Ordering::SeqCst);
+            if let Some(tx) = sig_tx.lock().unwrap().take() {
+                let _ = tx.send(());
+            }
+            async {
+                Ok::<_, std::convert::Infallible>(tower::service_fn(|_req: http::Request<hyperdriver::Body>| async {
+                    Ok::<_, std::convert::Infallible>(http::Response::new(hyperdriver::Body::from("hello-body")))
+                }))
+            }
+        });
+        // both connects are queued before the server future exists
+        let mut c1 = Box::pin(client.connect(4096));
+        let mut c2 = Box::pin(client.connect(4096));
+        let _ = futures_util::poll!(&mut c1);
+        let _ = futures_util::poll!(&mut c2);
+        let server = hyperdriver::Server::builder().with_acceptor(acceptor).with_make_service(svc).with_auto_http().with_tokio();
+        let serving = tokio::spawn(async move {
+            server
+                .with_graceful_shutdown(async move {
+                    let _ = sig_rx.await;
+                })
+                .await
+                .map_err(|e| e.to_string())
+        });
+        let r1 = tokio::time::timeout(Duration::from_millis(300), &mut c1).await;
+        let r2 = tokio::time::timeout(Duration::from_millis(300), &mut c2).await;
+        let done = tokio::time::timeout(Duration::from_millis(500), serving).await;
+        let mut out = vec![
+            format!("first_accepted={}", matches!(r1, Ok(Ok(_))) as u8),
+            format!("late_accepted={}", matches!(r2, Ok(Ok(_))) as u8),
+            format!("late_served=0"),
+            format!("services_made={}", made.load(Ordering::SeqCst)),
+        ];
         out.push(match done {
             Ok(Ok(Ok(()))) => "server_done=ok".to_string(),
             Ok(Ok(Err(e))) => format!("server_done=err:{e}"),
@@ -560,4 +624,242 @@ pub fn builder_tls_order(kv: &BTreeMap<String, String>) -> Vec<String> {
 #[cfg(not(feature = "tls"))]
 pub fn builder_tls_order(_kv: &BTreeMap<String, String>) -> Vec<String> {
     vec!["input_error=built without the tls feature".into()]
+}
+
+/// C03: request A (HTTP/1.1) holds the only connection the listener ever accepts; request B (HTTP/2)
+/// owns an in-flight connection attempt (never accepted); request C follows that attempt.  A finishes,
+/// its connection pre-empts B; with `cont=0` B's own attempt is thereby abandoned.  C must resolve
+/// (with a connection or an error) - a timeout means it is stranded.
+pub fn pool_preempted_owner(kv: &BTreeMap<String, String>) -> Vec<String> {
+    use hyperdriver::bridge::io::TokioIo;
+    use hyperdriver::client::conn::protocol::auto::HttpConnectionBuilder;
+    use hyperdriver::client::conn::transport::duplex::DuplexTransport;
+    use hyperdriver::server::conn::Accept;
+    use std::sync::Arc;
+    use std::sync::atomic::{AtomicUsize, Ordering};
+    use std::task::{Context, Poll};
+    /// the second connect (B's own attempt) stays pending until `fail` fires and then errors
+    #[derive(Clone)]
+    struct SecondFails {
+        inner: DuplexTransport,
+        calls: Arc<AtomicUsize>,
+        fail: Arc<tokio::sync::Notify>,
+    }
+    impl tower::Service<http::request::Parts> for SecondFails {
+        type Response = <DuplexTransport as tower::Service<http::request::Parts>>::Response;
+        type Error = std::io::Error;
+        type Future = std::pin::Pin<Box<dyn std::future::Future<Output = Result<Self::Response, Self::Error>> + Send>>;
+        fn poll_ready(&mut self, cx: &mut Context<'_>) -> Poll<Result<(), Self::Error>> {
+            self.inner.poll_ready(cx)
+        }
+        fn call(&mut self, req: http::request::Parts) -> Self::Future {
+            let n = self.calls.fetch_add(1, Ordering::SeqCst);
+            if n == 1 {
+                let fail = self.fail.clone();
+                return Box::pin(async move {
+                    fail.notified().await;
+                    Err(std::io::Error::new(std::io::ErrorKind::ConnectionRefused, "injected dial failure"))
+                });
+            }
+            Box::pin(self.inner.call(req))
+        }
+    }
+    let cont = kv.get("cont").map(|s| s == "1").unwrap_or(false);
+    let c_version = if kv.get("c").map(|s| s == "h1").unwrap_or(false) { http::Version::HTTP_11 } else { http::Version::HTTP_2 };
+    let rt = tokio::runtime::Builder::new_current_thread().enable_all().build().unwrap();
+    rt.block_on(async move {
+        let (tx, mut incoming) = hyperdriver::stream::duplex::pair();
+        let release = Arc::new(tokio::sync::Notify::new());
+        let release_b = Arc::new(tokio::sync::Notify::new());
+        {
+            let release = release.clone();
+            let release_b = release_b.clone();
+            tokio::spawn(async move {
+                // only ONE connection is ever accepted; it is served as HTTP/1.1 with keep-alive
+                let s1 = std::future::poll_fn(|cx| std::pin::Pin::new(&mut incoming).poll_accept(cx)).await.unwrap();
+                let first = Arc::new(std::sync::atomic::AtomicBool::new(true));
+                let svc = hyper::service::service_fn(move |req: http::Request<hyper::body::Incoming>| {
+                    let release = release.clone();
+                    let release_b = release_b.clone();
+                    let first = first.clone();
+                    async move {
+                        if first.swap(false, std::sync::atomic::Ordering::SeqCst) {
+                            release.notified().await;
+                        } else if req.uri().path() == "/b" {
+                            // B's exchange stays open while C is being watched
+                            release_b.notified().await;
+                        }
+                        Ok::<_, std::convert::Infallible>(http::Response::new(hyperdriver::Body::empty()))
+                    }
+                });
+                let _ = hyper::server::conn::http1::Builder::new().serve_connection(TokioIo::new(s1), svc).await;
+                std::future::pending::<()>().await;
+                drop(incoming);
+            });
+        }
+        let fail = Arc::new(tokio::sync::Notify::new());
+        let mut cfg = hyperdriver::client::PoolConfig::default();
+        cfg.idle_timeout = None;
+        cfg.continue_after_preemption = cont;
+        let client = hyperdriver::client::Client::builder()
+            .with_protocol(HttpConnectionBuilder::default())
+            .with_transport(SecondFails { inner: DuplexTransport::new(4096, tx.clone()), calls: Arc::new(AtomicUsize::new(0)), fail: fail.clone() })
+            .with_pool(cfg)
+            .without_timeout()
+            .build();
+        let go = |version: http::Version, path: &'static str| {
+            let mut c = client.clone();
+            tokio::spawn(async move {
+                let req = http::Request::get(format!("http://origin.test{path}")).version(version).body(hyperdriver::Body::empty()).unwrap();
+                match c.request(req).await {
+                    Ok(r) => format!("{}", r.status().as_u16()),
+                    Err(e) => format!("err:{e}"),
+                }
+            })
+        };
+        let settle = || async {
+            for _ in 0..30 {
+                tokio::task::yield_now().await;
+            }
+            tokio::time::sleep(std::time::Duration::from_millis(40)).await;
+        };
+        let ra = go(http::Version::HTTP_11, "/a");
+        settle().await;
+        let mut rb = go(http::Version::HTTP_2, "/b");
+        settle().await;
+        let mut rc = go(c_version, "/c");
+        settle().await;
+        release.notify_waiters();
+        let out_a = ra.await.unwrap();
+        settle().await;
+        // if B's own attempt lives on in the background (continue_after_preemption) it fails now
+        fail.notify_waiters();
+        settle().await;
+        async fn wait(h: &mut tokio::task::JoinHandle<String>) -> String {
+            match tokio::time::timeout(std::time::Duration::from_millis(1500), h).await {
+                Ok(Ok(s)) => s,
+                Ok(Err(e)) => format!("join:{e}"),
+                Err(_) => "timeout".to_string(),
+            }
+        }
+        // C is watched while B still holds the connection that pre-empted its attempt
+        let out_c = wait(&mut rc).await;
+        release_b.notify_waiters();
+        release_b.notify_one();
+        let out_b = wait(&mut rb).await;
+        vec![format!("ra={out_a}"), format!("rb={out_b}"), format!("rc={out_c}"), "result=ok".into()]
+    })
+}
+
+/// C14 (second clause): request R0 holds connection 1 (its handler is gated); request R1 starts its
+/// own dial (connection 2, not accepted yet) and is polled; R0 finishes and its connection serves R1.
+/// Then the listener accepts connection 2.  With continue_after_preemption the abandoned attempt
+/// completes in the background and its connection ends up in the pool: two overlapping requests
+/// afterwards need no further dial.  Without it nothing is left behind (one further dial).
+pub fn pool_bg_attempt(kv: &BTreeMap<String, String>) -> Vec<String> {
+    use hyperdriver::bridge::io::TokioIo;
+    use hyperdriver::client::conn::protocol::auto::HttpConnectionBuilder;
+    use hyperdriver::client::conn::transport::duplex::DuplexTransport;
+    use hyperdriver::server::conn::Accept;
+    use std::sync::atomic::{AtomicUsize, Ordering};
+    use std::sync::Arc;
+    use std::task::{Context, Poll};
+    #[derive(Clone)]
+    struct Counting(DuplexTransport, Arc<AtomicUsize>);
+    impl tower::Service<http::request::Parts> for Counting {
+        type Response = <DuplexTransport as tower::Service<http::request::Parts>>::Response;
+        type Error = <DuplexTransport as tower::Service<http::request::Parts>>::Error;
+        type Future = <DuplexTransport as tower::Service<http::request::Parts>>::Future;
+        fn poll_ready(&mut self, cx: &mut Context<'_>) -> Poll<Result<(), Self::Error>> {
+            self.0.poll_ready(cx)
+        }
+        fn call(&mut self, req: http::request::Parts) -> Self::Future {
+            self.1.fetch_add(1, Ordering::SeqCst);
+            self.0.call(req)
+        }
+    }
+    let cont = kv.get("cont").map(|s| s == "1").unwrap_or(true);
+    let rt = tokio::runtime::Builder::new_current_thread().enable_all().build().unwrap();
+    rt.block_on(async move {
+        let (tx, mut incoming) = hyperdriver::stream::duplex::pair();
+        let gate = Arc::new(tokio::sync::Notify::new()); // releases "/hold" requests
+        let accept_more = Arc::new(tokio::sync::Notify::new());
+        {
+            let gate = gate.clone();
+            let accept_more = accept_more.clone();
+            tokio::spawn(async move {
+                let mut n = 0;
+                loop {
+                    if n == 1 {
+                        accept_more.notified().await;
+                    }
+                    let Ok(s) = std::future::poll_fn(|cx| std::pin::Pin::new(&mut incoming).poll_accept(cx)).await else { break };
+                    n += 1;
+                    let gate = gate.clone();
+                    tokio::spawn(async move {
+                        let svc = hyper::service::service_fn(move |req: http::Request<hyper::body::Incoming>| {
+                            let gate = gate.clone();
+                            async move {
+                                if req.uri().path() == "/hold" {
+                                    gate.notified().await;
+                                }
+                                Ok::<_, std::convert::Infallible>(http::Response::new(hyperdriver::Body::empty()))
+                            }
+                        });
+                        let _ = hyper::server::conn::http1::Builder::new().serve_connection(TokioIo::new(s), svc).await;
+                    });
+                }
+            });
+        }
+        let dials = Arc::new(AtomicUsize::new(0));
+        let mut cfg = hyperdriver::client::PoolConfig::default();
+        cfg.idle_timeout = None;
+        cfg.continue_after_preemption = cont;
+        let client = hyperdriver::client::Client::builder()
+            .with_protocol(HttpConnectionBuilder::default())
+            .with_transport(Counting(DuplexTransport::new(4096, tx.clone()), dials.clone()))
+            .with_pool(cfg)
+            .without_timeout()
+            .build();
+        let go = |path: &'static str| {
+            let mut c = client.clone();
+            tokio::spawn(async move {
+                let req = http::Request::get(format!("http://origin.test{path}")).version(http::Version::HTTP_11).body(hyperdriver::Body::empty()).unwrap();
+                match tokio::time::timeout(std::time::Duration::from_millis(2000), c.request(req)).await {
+                    Ok(Ok(r)) => format!("{}", r.status().as_u16()),
+                    Ok(Err(e)) => format!("err:{e}"),
+                    Err(_) => "timeout".to_string(),
+                }
+            })
+        };
+        let settle = || async {
+            for _ in 0..30 {
+                tokio::task::yield_now().await;
+            }
+            tokio::time::sleep(std::time::Duration::from_millis(40)).await;
+        };
+        let r0 = go("/hold");
+        settle().await;
+        let r1 = go("/"); // dials connection 2 (not accepted yet) and is polled while it waits
+        settle().await;
+        gate.notify_waiters(); // R0 finishes: connection 1 is released and serves R1
+        let out0 = r0.await.unwrap();
+        let out1 = r1.await.unwrap();
+        settle().await;
+        accept_more.notify_one(); // now connection 2 would be accepted
+        for _ in 0..5 {
+            accept_more.notify_one();
+            settle().await;
+        }
+        let before = dials.load(Ordering::SeqCst);
+        // two overlapping requests: with an extra pooled connection from the background attempt no dial is needed
+        let a = go("/hold");
+        settle().await;
+        let b = go("/hold");
+        settle().await;
+        gate.notify_waiters();
+        let (oa, ob) = (a.await.unwrap(), b.await.unwrap());
+        let extra = dials.load(Ordering::SeqCst) - before;
+        vec![format!("r0={out0}"), format!("r1={out1}"), format!("ra={oa}"), format!("rb={ob}"), format!("dials_before={before}"), format!("extra_dials={extra}"), "result=ok".into()]
+    })
 }
